@@ -54,6 +54,8 @@ class Cfg:
 CFGS = [Cfg(*c) for c in CONFIGS]
 TINY = [c for c in CFGS if c.p <= 17]
 SMALLN = [c for c in CFGS if c.n <= 6]
+SOP_LENGTHS = [1, 2, 3, 4, 5, 6, 7, 8, 9, 10, 16, 17]
+SPARE24 = [c for c in CFGS if 2 <= 64 * c.n - c.bits <= 4 and c.p > (3 << (c.bits - 2))]   # near-top moduli, 2..4 spare bits
 
 
 def operand(rng, c):
@@ -244,6 +246,17 @@ def gen(rng, tier):
     for _ in range(500 * scale):
         c = pick(rng, CFGS); fl = rng.choice(FL)
         M = rng.choice([1, 2, 2, 3, 4, 7, 7])
+        if rng.randrange(2) == 0:
+            # the accumulator bound: `chunk` = 2s - 1 products per reduction (s = spare bits); (M + 1) p <= 2^(64N) is
+            # tight for moduli near the top of their bit range: lengths around chunk, 2 chunk, 2^s and their multiples
+            c = pick(rng, SPARE24)
+            s_ = 64 * c.n - c.bits
+            ch = 2 * s_ - 1
+            M = rng.choice([ch - 1, ch, ch + 1, ch + 2, 2 * ch - 1, 2 * ch, 2 * ch + 1, 3 * ch, 3 * ch + 1,
+                            (1 << s_) - 1, 1 << s_, (1 << s_) + 1, 2 << s_, (2 << s_) + 1])
+            M = max(1, M)
+            if M not in SOP_LENGTHS:                      # lengths the harness instantiates (const generic)
+                M = min(SOP_LENGTHS, key=lambda v: (abs(v - M), v))
         xs, ys = [], []
         worst = rng.randrange(3) == 0
         for _i in range(M):
